@@ -7,4 +7,8 @@ export CARGO_NET_OFFLINE=true
 # C36: warm the embedder template (debug build of abra_core and its dependencies) so that a batch
 # only compiles the generated bindings and glue
 ( cd engine/hostgen && CARGO_TARGET_DIR="$PWD/target" cargo build --offline )
+# sanitizer worker for C37/C38 (nightly + ASan, or the stable fallback)
+. tools/build_utilsan.sh
+build_utilsan
+echo "utilsan: $UTILSAN_BUILD ($UTILSAN_BIN)"
 echo "setup ok"
